@@ -141,7 +141,19 @@ func (dec *Decoder) applyInverseTransforms(pixels []uint32) []uint32 {
 
 	for n := dec.nextTransform - 1; n >= 0; n-- {
 		t := &dec.transforms[n]
-		inverseTransform(t, 0, t.YSize, rows, out)
+		in := rows
+		if t.Type == ColorIndexingTransform && t.Bits > 0 && n != dec.nextTransform-1 {
+			// From the second inverse on the chain works in place (rows == out).
+			// Unpacking a packed palette image writes ahead of its reads, so it
+			// must read from a copy of the packed pixels (libwebp moves them to
+			// the end of the output buffer for the same reason).
+			packed := t.YSize * VP8LSubSampleSize(t.XSize, t.Bits)
+			if packed < 0 || packed > len(rows) {
+				packed = len(rows)
+			}
+			in = append([]uint32(nil), rows[:packed]...)
+		}
+		inverseTransform(t, 0, t.YSize, in, out)
 		rows = out
 	}
 
